@@ -776,6 +776,25 @@ func (a *linAnalysis) cond(st *lstate, e ast.Expr, kT, kF func(*lstate)) {
 			a.cond(st, x.X, kT, func(s *lstate) { a.cond(s, x.Y, kT, kF) })
 			return
 		case token.LSS, token.LEQ, token.GTR, token.GEQ, token.EQL, token.NEQ:
+			// an in-repo call with an integer result inside the comparison is interpreted path by path first, so that
+			// its result stays correlated with its arguments (len(buf) < varintLen(num))
+			if call := a.nestedIntCall(st, x); call != nil {
+				a.callStmt(st, call, func(s *lstate, res []*lval) {
+					if s.memo == nil {
+						s.memo = map[*ast.CallExpr]*lval{}
+					}
+					if len(res) == 1 && res[0] != nil {
+						s.memo[call] = res[0]
+					} else {
+						s.memo[call] = a.freshFor(s, a.info.TypeOf(call))
+					}
+					done := func(kk func(*lstate)) func(*lstate) {
+						return func(s2 *lstate) { delete(s2.memo, call); kk(s2) }
+					}
+					a.cond(s, e, done(kT), done(kF))
+				})
+				return
+			}
 			l, r := a.expr(st, x.X), a.expr(st, x.Y)
 			if l.kind == lkInt && r.kind == lkInt {
 				d := l.lin.sub(r.lin) // l - r
@@ -856,6 +875,32 @@ func (a *linAnalysis) cond(st *lstate, e ast.Expr, kT, kF func(*lstate)) {
 	sT := st.clone()
 	kT(sT)
 	kF(st)
+}
+
+// nestedIntCall: the first (innermost) summarisable in-repo call with one integer result inside e that has not been
+// interpreted yet on this path.
+func (a *linAnalysis) nestedIntCall(st *lstate, e ast.Expr) *ast.CallExpr {
+	var found *ast.CallExpr
+	ast.Inspect(e, func(m ast.Node) bool {
+		switch y := m.(type) {
+		case *ast.FuncLit:
+			return false
+		case *ast.CallExpr:
+			if _, done := st.memo[y]; done {
+				return true
+			}
+			if tv, ok := a.info.Types[y.Fun]; ok && tv.IsType() {
+				return true
+			}
+			if a.isSummarisable(y) {
+				if t := a.info.TypeOf(y); t != nil && isIntLike(t) {
+					found = y // keep descending: an inner call wins
+				}
+			}
+		}
+		return true
+	})
+	return found
 }
 
 func (a *linAnalysis) refineLoc(st *lstate, loc ast.Expr, v *lval) {
@@ -1230,6 +1275,30 @@ func (a *linAnalysis) callArgs(st *lstate, call *ast.CallExpr, f *types.Func) []
 // callStmt: a call in statement position (whole right-hand side, return operand, expression statement):
 // in-repo callees are instantiated path by path.
 func (a *linAnalysis) callStmt(st *lstate, call *ast.CallExpr, k func(*lstate, []*lval)) {
+	if f, ok := a.calleeOf(call).(*types.Func); ok && f.FullName() == "encoding/binary.PutUvarint" && len(call.Args) == 2 {
+		// n = number of 7-bit groups of x; the buffer must hold them (PutUvarint panics otherwise). Forked by the size
+		// class of x so that n stays correlated with x.
+		buf, x := a.expr(st, call.Args[0]), a.expr(st, call.Args[1])
+		if buf.kind == lkSeq && x.kind == lkInt {
+			lo := int64(0)
+			for n := int64(1); n <= 9; n++ {
+				hi := int64(1)<<(7*uint(n)) - 1
+				s := st.clone()
+				s.assume(x.lin.sub(leConst(lo)))
+				if n < 9 {
+					s.assume(leConst(hi).sub(x.lin))
+				}
+				lo = hi + 1
+				if !a.feasible(s) {
+					continue
+				}
+				a.oblige(s, buf.ln.sub(leConst(n)), fmt.Sprintf("PutUvarint needs %d byte(s) for a value of this size", n), call.Pos())
+				k(s, []*lval{{kind: lkInt, lin: leConst(n)}})
+			}
+			return
+		}
+		a.undecided("PutUvarint on untracked operands", call.Pos())
+	}
 	if !a.isSummarisable(call) {
 		v := a.callExpr(st, call)
 		var res []*lval
@@ -1358,6 +1427,9 @@ type multiVal struct {
 // callExpr: a call in expression position (no forking): conversions, builtins, modelled library functions;
 // in-repo callees yield a value that holds on all their paths (their obligations must hold here).
 func (a *linAnalysis) callExpr(st *lstate, call *ast.CallExpr) *lval {
+	if v, ok := st.memo[call]; ok && v != nil {
+		return v
+	}
 	// conversion
 	if tv, ok := a.info.Types[call.Fun]; ok && tv.IsType() && len(call.Args) == 1 {
 		v := a.expr(st, call.Args[0])
@@ -1532,6 +1604,46 @@ func (a *linAnalysis) callExpr(st *lstate, call *ast.CallExpr) *lval {
 					}
 					a.obligeCtx(st, ctx, ren(pre.goal), "via "+pre.fn+": "+pre.what, call.Pos())
 				}
+			}
+			// a single-path callee is instantiated exactly (no fork needed): its constraints and result carry over
+			if len(sum.paths) == 1 && len(sum.paths[0].results) == 1 && sum.paths[0].results[0] != nil {
+				p := sum.paths[0]
+				m := map[int]LE{}
+				for i, pv := range sum.params {
+					if i >= len(args) {
+						break
+					}
+					switch {
+					case pv.kind == lkInt && args[i].kind == lkInt && len(pv.lin.t) == 1:
+						m[pv.lin.t[0].a] = args[i].lin
+					case pv.kind == lkSeq && args[i].kind == lkSeq && len(pv.ln.t) == 1:
+						m[pv.ln.t[0].a] = args[i].ln
+					}
+				}
+				base := a.natoms
+				a.natoms += sum.natoms
+				ren := func(l LE) LE {
+					out := leConst(l.k)
+					for _, t := range l.t {
+						if r, ok := m[t.a]; ok {
+							out = out.add(r.scale(t.c))
+						} else {
+							out = out.add(LE{t: []lterm{{base + t.a, t.c}}})
+						}
+					}
+					return out
+				}
+				for _, c := range p.cons {
+					st.assume(ren(c))
+				}
+				nv := *p.results[0]
+				switch nv.kind {
+				case lkInt:
+					nv.lin = ren(nv.lin)
+				case lkSeq:
+					nv.ln = ren(nv.ln)
+				}
+				return &nv
 			}
 			// the result: when every path returns the same kind of value with a constant, keep it; else fresh
 			return a.joinResults(st, sum, args, rt)
